@@ -58,6 +58,9 @@ def make_repo_class(R, C, E, U):
             if not readable:
                 raise E.MetadataError(cname, U.parse_version(ver), ValueError("unreadable"))
             d = C.DistInfo(cname, U.parse_version(ver), [U.parse_requirement(r) for r in reqs])
+            # the hash a real repository records for the file that was used (a function of project and version here)
+            import hashlib
+            d.hash = "sha256:" + hashlib.sha256(f"{U.normalize_project_name(cname)}-{ver}".encode()).hexdigest()
             d.origin = self
             return d, True
 
